@@ -28,7 +28,7 @@ def toB (p : Pt) : Pt := { p with coord := p.coord.map (· * 2), frame := "B" }
 
 theorem interp_two (y0 y1 : ℝ) :
     interp .linear (some 8) [0, 1] [[y0], [y1]] 1 = .ok [y0 + (y1 - y0) * (1 - 0) / (1 - 0)] := by
-  simp [interp, increasing, interpCall, linearCall, prevIdx, prevIdxGo, pySlice, pyBound, linRow]
+  simp [interp, increasing, interpCall, callRefuses, linearCall, linearSlice, linearFormula, prevIdx, prevIdxGo, pySlice, pyBound, linRow]
 
 /-- interpolate, convert, interpolate at the node `1`: frame `B` and the frame-`B` coordinate 4, the same as
 on an ephemeris converted before its first interpolation (the stale value was 2) -/
@@ -40,6 +40,30 @@ theorem stale_scenario_now_consistent :
   · simp [Eph.interpolate, Eph.convert, ephem0, hm, Except.toOption]
     simp [toB, interp_two]; norm_num
   · simp [Eph.interpolate, Eph.convert, ephem0, hm, Except.toOption]
+    simp [toB, interp_two]; norm_num
+
+/-! ### aliases: `ephem[i]` is the recorded object, and converting it in place is not seen by an existing interpolator
+
+`Ephem.__getitem__` (and plain iteration, which the frame/form setters themselves use) hands out the recorded
+point.  A caller that converts such a point in place changes the table — but the array held by an interpolator
+created earlier is refreshed by the `Ephem.frame` / `Ephem.form` setters only.  The model (`EphH.mutate`) says so, the
+correspondence replays it on the real class (`W` operations on `rec` objects); the theorems of Props/C09Ephem.lean
+quantify over histories in which the caller modifies only objects the ephemeris created for it
+(`OnlyReplies`).  Not a clause of C09 (the property speaks of the ephemeris' own frame and form); recorded in
+`ASSUMPTIONS` of harness/props/C09.py. -/
+
+/-- `ephem0` with identities: recorded points are objects 0 and 1 -/
+def h0 : EphH := { e := ephem0, ids := [0, 1], next := 2 }
+
+/-- interpolate (the interpolator now holds `[[0],[2]]`), convert the second recorded point through its alias,
+interpolate at its date: the old coordinate 2; on an ephemeris never interpolated before: the new coordinate 4 -/
+theorem alias_mutation_not_refreshed :
+    (((h0.interpolate 1).2.mutate 1 toB).interpolate 1).1.toOption.map (fun r => r.2.coord) = some [2] ∧
+    ((h0.mutate 1 toB).interpolate 1).1.toOption.map (fun r => r.2.coord) = some [4] := by
+  constructor
+  · simp [EphH.interpolate, EphH.mutate, Eph.interpolate, h0, ephem0, Except.toOption]
+    simp [toB, interp_two]
+  · simp [EphH.interpolate, EphH.mutate, Eph.interpolate, h0, ephem0, Except.toOption]
     simp [toB, interp_two]; norm_num
 
 end BeyondVerif.C09W
